@@ -19,9 +19,11 @@
  *  syslog interposition: the executable's definitions win over libc's
  * ===================================================================== */
 long vh_syslog_calls;
-void syslog(int pri, const char *fmt, ...) { (void)pri; (void)fmt; __atomic_fetch_add(&vh_syslog_calls, 1, __ATOMIC_RELAXED); }
-void vsyslog(int pri, const char *fmt, va_list ap) { (void)pri; (void)fmt; (void)ap; __atomic_fetch_add(&vh_syslog_calls, 1, __ATOMIC_RELAXED); }
-void __syslog_chk(int pri, int flag, const char *fmt, ...) { (void)pri; (void)flag; (void)fmt; __atomic_fetch_add(&vh_syslog_calls, 1, __ATOMIC_RELAXED); }
+/* the message is formatted (into a scratch buffer that is thrown away) exactly as the real syslog would: a bad argument for a
+ * conversion - a NULL or dangling %s - must fault here as it would there */
+void syslog(int pri, const char *fmt, ...) { (void)pri; char b[512]; va_list ap; va_start(ap, fmt); vsnprintf(b, sizeof b, fmt, ap); va_end(ap); __atomic_fetch_add(&vh_syslog_calls, 1, __ATOMIC_RELAXED); }
+void vsyslog(int pri, const char *fmt, va_list ap) { (void)pri; char b[512]; vsnprintf(b, sizeof b, fmt, ap); __atomic_fetch_add(&vh_syslog_calls, 1, __ATOMIC_RELAXED); }
+void __syslog_chk(int pri, int flag, const char *fmt, ...) { (void)pri; (void)flag; char b[512]; va_list ap; va_start(ap, fmt); vsnprintf(b, sizeof b, fmt, ap); va_end(ap); __atomic_fetch_add(&vh_syslog_calls, 1, __ATOMIC_RELAXED); }
 void openlog(const char *ident, int option, int facility) { (void)ident; (void)option; (void)facility; }
 void closelog(void) { }
 
